@@ -137,7 +137,13 @@ def can_schema(draw, cfg: Optional[CanCfg] = None) -> M.Schema:
     s = M.Schema([])
     for nm in names[:n_e]:
         s.decls.append(draw(S.enum_decl(nm, cfg.enums_max_bits, st.from_regex(r"[A-Z][a-z0-9]{1,6}", fullmatch=True))))
-    msg_names = names[n_e:n_e + n_m]
+    msg_names = list(names[n_e:n_e + n_m])
+    # related names: one message name contained in another ("Status" / "StatusReq"), as in real schemas
+    if n_m >= 2 and draw(st.integers(0, 2)) == 0:
+        i, j = draw(st.lists(st.integers(0, n_m - 1), min_size=2, max_size=2, unique=True))
+        cand = msg_names[i] + draw(st.sampled_from(["Req", "x", "2", "Ext"]))
+        if cand not in names and cand not in msg_names:
+            msg_names[j] = cand
     helper_names = list(names[n_e + n_m:])
     for nm in msg_names:
         for d in draw(can_message_struct(nm, cfg, s, helper_names)):
